@@ -175,7 +175,7 @@ func c17Blame(orig ast.Vertex, out string, r2 drive.Result) string {
 }
 
 func c17Run(c *core.Ctx) {
-	level := 2
+	level := 3
 	if c.Thorough() {
 		level = 4
 	}
@@ -185,6 +185,15 @@ func c17Run(c *core.Ctx) {
 			c.SetAdd("rules_"+fam, itoa(it.Rule))
 			if it.R == nil {
 				continue
+			}
+			// every alternative spelling of every token (keyword case, cast spellings, number and string forms)
+			if it.Rule >= 0 && countSub(it.Why, "child") < 2 {
+				forDeviations(it, false, true, func(src, why string) {
+					if why == it.Why || !c.Next() {
+						return
+					}
+					c17One(c, mkCase(src, f.V, why))
+				})
 			}
 			layouts := []string{
 				it.Src,
@@ -221,7 +230,7 @@ func c17Run(c *core.Ctx) {
 func init() {
 	register(&core.Check{
 		Prop: "C17", Level: "exploration", Exhaust: true, QuickSecs: 300, ThorSecs: 2400,
-		Rule: "every valid program of the E-lr corpora of both grammars (rules, 2-paths; thorough: nullable combinations — every optional child present or absent — and 3-paths) in four whitespace layouts (one blank per gap, minimal, CRLF+tabs, blank lines+indent), plus the specials. " +
+		Rule: "every valid program of the E-lr corpora of both grammars (rules, 2-paths, nullable combinations — every optional child present or absent; thorough: 3-paths) in four whitespace layouts, every token of the rule- and 2-path-level programs replaced by every alternative lexeme (one blank per gap, minimal, CRLF+tabs, blank lines+indent), plus the specials. " +
 			"Oracle: format+print does not panic; the text re-parses with zero errors to the same structural fingerprint (kinds, roles, values); formatting the re-parsed text reproduces it byte for byte (idempotence); all whitespace layouts of one program format to the same text (canonical). Comments are not part of the layouts compared (the formatter drops free-floating tokens; what it must keep is structure and values). non-trivial = error-free source; distinct by (version, source)",
 		Assume: []string{"finding keys name the formatter function that panics or the construct whose formatted text is wrong, never the input"},
 		Run:    c17Run,
